@@ -1273,3 +1273,39 @@ func auxReexportedHost() Aux {
 	}
 	return a
 }
+
+// auxStartHost: a module whose START section names an imported host function (same root as the re-exported host function)
+func auxStartHost() Aux {
+	// (module (import "env" "h0" (func)) (start 0))
+	bin := []byte{0, 0x61, 0x73, 0x6d, 1, 0, 0, 0,
+		0x01, 0x04, 0x01, 0x60, 0x00, 0x00,
+		0x02, 0x0a, 0x01, 0x03, 'e', 'n', 'v', 0x02, 'h', '0', 0x00, 0x00,
+		0x08, 0x01, 0x00}
+	a := Aux{Aux: "start-section-names-imported-host-function", Engines: map[string]string{}}
+	for _, eng := range []string{"interp", "compiler"} {
+		a.Engines[eng] = auxStartRun(eng, bin)
+	}
+	return a
+}
+
+// auxLookupImported: experimental/table.LookupFunction on a table element that refers to an IMPORTED function must
+// return that function (A.f1, which returns 2), on both engines
+func auxLookupImported() Aux {
+	// A: (func (export "f0") (result i32) i32.const 1) (func (export "f1") (result i32) i32.const 2)
+	modA := []byte{0, 0x61, 0x73, 0x6d, 1, 0, 0, 0,
+		1, 5, 1, 0x60, 0, 1, 0x7f,
+		3, 3, 2, 0, 0,
+		7, 11, 2, 2, 'f', '0', 0, 0, 2, 'f', '1', 0, 1,
+		10, 11, 2, 4, 0, 0x41, 1, 0x0b, 4, 0, 0x41, 2, 0x0b}
+	// B: (import "A" "f1" (func (result i32))) (table 1 funcref) (elem (i32.const 0) 0)
+	modB := []byte{0, 0x61, 0x73, 0x6d, 1, 0, 0, 0,
+		1, 5, 1, 0x60, 0, 1, 0x7f,
+		2, 8, 1, 1, 'A', 2, 'f', '1', 0, 0,
+		4, 4, 1, 0x70, 0, 1,
+		9, 7, 1, 0, 0x41, 0, 0x0b, 1, 0}
+	a := Aux{Aux: "lookup-imported-function", Engines: map[string]string{}}
+	for _, eng := range []string{"interp", "compiler"} {
+		a.Engines[eng] = auxLookupRun(eng, modA, modB)
+	}
+	return a
+}
